@@ -131,9 +131,12 @@ def run_selection(rep, max_size):
 GALPHA = [0.0, 1.0, 2.0]
 
 
+TASK_DIRECTION = ['min']
+
+
 def _opt(pop, population_size, mode='serial', workers=4):
     o = ScriptOpt(ScriptConfig(population_size=population_size))
-    o._task = task0()
+    o._task = task0(minmax=TASK_DIRECTION[0])     # internal costs are compared ascending whatever the direction
     o._mode = ModeSolver(mode)
     o._workers = workers
     o._population = list(pop)
@@ -257,6 +260,17 @@ def run_greedy(rep, max_cur, max_new, max_pool):
                   f"over {GALPHA} and ALL completion orders / worker assignments")
 
 
+class _Tag:
+    def __init__(self, rep, tag):
+        self.rep, self.tag = rep, tag
+
+    def finding(self, key, detail, replay):
+        self.rep.finding(key + self.tag, detail, replay)
+
+    def part(self, name, *a, **k):
+        self.rep.part(name + self.tag, *a, **k)
+
+
 def run(rep, tier):
     if tier == 'quick':
         run_selection(rep, 5)
@@ -264,6 +278,12 @@ def run(rep, tier):
     else:
         run_selection(rep, 6)
         run_greedy(rep, 4, 6, 4)
+    # the optimizer-level helpers once more on a maximisation task
+    TASK_DIRECTION[0] = 'max'
+    try:
+        run_greedy(_Tag(rep, '|max-task'), 3, 3, 3)
+    finally:
+        TASK_DIRECTION[0] = 'min'
     rep.assume("cost alphabet {-inf,-1,0,2,+inf} with repetition (ties); agents identified by a unique position tag, "
                "object identity is not required", "NaN costs are outside the alphabet")
 
